@@ -135,3 +135,158 @@ Section GenGraphTotal.
     - eauto.
   Qed.
 End GenGraphTotal.
+
+(* ---------------------------------------------------------------- the shuffle oracle *)
+(* [perms] stands for the seeded `shuffle` of the node list: row k-1 is the permutation applied to
+   a list of k nodes.  Well formed up to N: for 1 <= k <= N there is a row of k indexes below k. *)
+Definition shuffle_ok (perms : list (list nat)) (N : nat) : Prop :=
+  forall k, 1 <= k <= N ->
+  exists row, nth_error perms (k - 1) = Some row /\ length row = k /\ forall i, In i row -> i < k.
+
+Lemma omapM_total_l : forall {X Y} (f : X -> outcome Y) l,
+  (forall x, In x l -> exists y, f x = Ok y) -> exists r, omapM f l = Ok r.
+Proof.
+  intros X Y f. induction l as [ | x t IH ]; intros H; [eexists; reflexivity | ]. cbn [omapM].
+  destruct (H x (or_introl eq_refl)) as (y & Hy). rewrite Hy. cbn [bind].
+  destruct (IH (fun z Hz => H z (or_intror Hz))) as (r & Hr). rewrite Hr. cbn [bind]. eauto.
+Qed.
+
+Lemma shuffled_total (g : lgraph) perms N :
+  shuffle_ok perms N -> length (get_all_nodes g) <= N ->
+  exists order, get_shuffled_node_names g perms = Ok order.
+Proof.
+  intros Hs Hn. unfold get_shuffled_node_names.
+  remember (map nname (get_all_nodes g)) as nm eqn:E.
+  assert (Hl : length nm <= N) by (subst nm; rewrite map_length; exact Hn).
+  destruct nm as [|x t]; [eauto|]. cbv zeta.
+  destruct (Hs (length (x :: t))) as (row & Hrow & Hlen & Hlt); [cbn [length] in *; lia|].
+  rewrite Hrow. cbn [unwrap_at bind]. rewrite Hlen, Nat.eqb_refl. cbn [negb].
+  apply omapM_total_l. intros i Hi. specialize (Hlt i Hi).
+  destruct (nth_error (x :: t) i) as [y|] eqn:Ey; [cbn; eauto|]. apply nth_error_None in Ey. lia.
+Qed.
+
+(* ---------------------------------------------------------------- modularity on a level graph *)
+From GV Require Import Proofs.LouvainNumOk Proofs.LouvainTermOk Proofs.LouvainLevelOk Proofs.LouvainAggOk
+     Proofs.LouvainConvertOk Proofs.LouvainLevelsOk Proofs.LouvainNoFuelOk Proofs.LouvainModelOk Proofs.TotalAll.
+
+Lemma level_modularity_ok (gk : lgraph) nk (I : list (list nat)) weighted res :
+  LevelGraph gk nk ->
+  Forall (@NoDup nat) I ->
+  (forall u, In u (seq 0 nk) <-> exists l, In l I /\ In u l) ->
+  ForallOrdPairs (fun a b => forall x, In x a -> ~ In x b) I ->
+  exists q, modularity Nat.eqb Nat.ltb gk I weighted res = Ok q.
+Proof.
+  intros LG Hnd Hcov Hdis.
+  pose proof (total_modularity Nat.eqb Nat.ltb neqb_spec nltb_total gk I weighted res (lg_wf gk nk LG)) as H.
+  assert (Hip : is_partition_model Nat.eqb (get_all_node_names gk) I = true).
+  { apply (is_partition_model_correct Nat.eqb neqb_spec).
+    - exact (wf_nodup _ _ _ (lg_wf gk nk LG)).
+    - exact Hnd.
+    - split; [exact Hdis|]. split.
+      + intros c x Hc Hx. apply (LG_names gk nk LG). apply Hcov. exists c. split; assumption.
+      + intros x Hx. apply (LG_names gk nk LG) in Hx. apply Hcov in Hx. exact Hx. }
+  rewrite Hip in H. apply H. intros _ e z He Hz.
+  destruct (lg_real gk nk LG e He) as (z' & Hz' & Hpos). congruence.
+Qed.
+
+Lemma PIok_modularity_ok (gk : lgraph) nk P I weighted res :
+  LevelGraph gk nk -> PIok (seq 0 nk) (attr_of gk) P I ->
+  exists q, modularity Nat.eqb Nat.ltb gk I weighted res = Ok q.
+Proof.
+  intros LG HPI. apply (level_modularity_ok gk nk I weighted res LG).
+  - pose proof (pi_al _ _ _ _ HPI) as Hal. clear -Hal. induction Hal as [|p l P' I' Hpl _ IH]; constructor; [|exact IH].
+    destruct Hpl as (_ & Hl & _). exact Hl.
+  - exact (pi_cover _ _ _ _ HPI).
+  - exact (pi_disj _ _ _ _ HPI).
+Qed.
+
+Lemma singletons_modularity_ok (gk : lgraph) nk weighted res :
+  LevelGraph gk nk ->
+  exists q, modularity Nat.eqb Nat.ltb gk (map (fun k => [k]) (seq 0 nk)) weighted res = Ok q.
+Proof.
+  intros LG. apply (level_modularity_ok gk nk _ weighted res LG).
+  - apply Forall_forall. intros l Hl. apply in_map_iff in Hl. destruct Hl as (k & <- & _).
+    constructor; [intros []|constructor].
+  - intros u. split.
+    + intros Hu. exists [u]. split; [apply in_map_iff; exists u; split; [reflexivity|exact Hu]|left; reflexivity].
+    + intros (l & Hl & Hu). apply in_map_iff in Hl. destruct Hl as (k & <- & Hk). destruct Hu as [<-|[]]. exact Hk.
+  - generalize (seq_NoDup nk 0). generalize (seq 0 nk). induction l as [|k t IH]; intros Hnd; cbn [map]; [constructor|].
+    inversion Hnd as [|? ? Hni Hnd']. subst. constructor; [|apply IH; exact Hnd'].
+    apply Forall_forall. intros b Hb x [<-|[]] Hx. apply in_map_iff in Hb. destruct Hb as (j & <- & Hj).
+    destruct Hx as [<-|[]]. exact (Hni Hj).
+Qed.
+
+(* ---------------------------------------------------------------- the level loop *)
+Section LoopTotal.
+  Open Scope Q_scope.
+  Variable es0 : list wedgeN.
+  Variable dir0 : bool.
+  Variable orig : list nat.
+  Variables m res : Q.
+  Hypothesis Hm0 : m == total_w es0.
+  Hypothesis Hmpos : 0 <= m.
+  Hypothesis Hres : 0 <= res.
+
+  (* the local-moving phase on the aggregated graph returns *)
+  Lemma phase_total : forall gk nk partition inner g2 sf perms N,
+    LInv es0 dir0 orig gk nk partition inner ->
+    generate_graph gk inner = Ok g2 ->
+    (length inner <= N)%nat -> (N ^ N <= sf)%nat -> shuffle_ok perms N ->
+    exists p2 i2 imp tie2, compute_one_level sf g2 m partition res perms = Ok (p2, i2, imp, tie2).
+  Proof.
+    intros gk nk partition inner g2 sf perms N HL Hg2 HN Hsf Hsh.
+    pose proof HL as [LG Hd HF AO HPI].
+    destruct (generate_graph_struct gk inner g2 Hg2) as [W2 [Hn2 [Hsp2 Hat2]]].
+    pose proof (pi_al _ _ _ _ HPI) as Hal.
+    assert (Hlen : length partition = length inner) by (eapply F2_length; exact Hal).
+    assert (Hlv : level_ok orig partition) by (eapply PIok_level_ok; eassumption).
+    assert (Hpa : forall c p, nth_error partition c = Some p ->
+                NoDup p /\ NoDup (attr_of g2 c) /\ forall x, In x p <-> In x (attr_of g2 c)).
+    { intros c p Hp. destruct (nth_error inner c) as [l|] eqn:El.
+      - destruct (Forall2_nth_inv _ _ _ Hal c p l Hp El) as [Hndp [_ [_ Hpx]]].
+        destruct (Hat2 c l El) as [Hnda Hax]. split; [exact Hndp|]. split; [exact Hnda|].
+        intro x. rewrite Hpx, Hax. reflexivity.
+      - apply nth_error_None in El. assert ((c < length partition)%nat) by (apply nth_error_Some; congruence). lia. }
+    assert (AO2 : AttrOk orig (seq 0 (length inner)) (attr_of g2)).
+    { apply (AttrOk_of_level orig partition); [exact Hlv | exact Hlen |].
+      intros i p Hp. destruct (Hpa i p Hp) as [_ [Hnd Hx]]. split; [exact Hnd|]. intro x. symmetry. apply Hx. }
+    assert (LG2 : LevelGraph g2 (length inner)).
+    { constructor.
+      - exact W2.
+      - rewrite Hsp2. cbn [multi]. apply (lg_single gk nk LG).
+      - rewrite Hn2. apply Permutation_refl.
+      - apply (generate_graph_weights gk inner g2 (lg_wf gk nk LG) Hg2). apply (lg_real gk nk LG).
+      - apply (ao_disj _ _ _ AO2). }
+    destruct (shuffled_total g2 perms N Hsh) as (order & Hord).
+    { change (length (get_all_nodes g2)) with (length (nodes_vec g2)).
+      rewrite <- (map_length nname (nodes_vec g2)). change (map nname (nodes_vec g2)) with (gnames g2).
+      rewrite Hn2, seq_length. exact HN. }
+    destruct (level_total g2 (length inner) LG2 m res Hmpos Hres sf partition perms order Hlen) as [p2 [i2 [imp [tie2 [Hc _]]]]].
+    - intros c p Hp. destruct (Hpa c p Hp) as [Hnd [_ Hx]]. split; assumption.
+    - exact Hord.
+    - apply Nat.le_trans with (N ^ N)%nat; [apply pow_self_mono; exact HN | exact Hsf].
+    - eauto.
+  Qed.
+
+  Lemma level_loop_total :
+    forall fuel sf weighted thr perms gk nk partition inner md acc tie N,
+      LInv es0 dir0 orig gk nk partition inner ->
+      (length inner < fuel)%nat -> (length inner <= N)%nat -> (N ^ N <= sf)%nat -> shuffle_ok perms N ->
+      exists r, level_loop fuel sf weighted res thr perms m gk partition inner md acc tie = Ok r.
+  Proof.
+    induction fuel as [|f IH]; intros sf weighted thr perms gk nk partition inner md acc tie N HL Hf HN Hsf Hsh; [lia|].
+    cbn [level_loop]. pose proof HL as [LG Hd HF AO HPI].
+    destruct (PIok_modularity_ok gk nk partition inner weighted res LG HPI) as (new_mod & ->). cbn [unwrap_res bind].
+    destruct (gain_small new_mod md thr) as [small close]. destruct small; [eauto|].
+    destruct (generate_graph_total gk (lg_wf gk nk LG) inner) as (g2 & Hg2).
+    { intros l u Hl Hu. apply (LG_names gk nk LG). apply (pi_cover _ _ _ _ HPI). exists l. split; assumption. }
+    { intros u Hu. apply (LG_names gk nk LG) in Hu. apply (pi_cover _ _ _ _ HPI). exact Hu. }
+    rewrite Hg2. cbn [bind].
+    destruct (phase_total gk nk partition inner g2 sf perms N HL Hg2 HN Hsf Hsh) as (p2 & i2 & imp & tie2 & Hc).
+    rewrite Hc. cbn [bind]. destruct imp; [|eauto].
+    destruct (LInv_step es0 dir0 orig m res Hm0 Hmpos Hres gk nk partition inner g2 sf perms p2 i2 true tie2 HL Hg2 Hc)
+      as [HL2 [_ Hshr]].
+    specialize (Hshr eq_refl).
+    apply (IH sf weighted thr perms g2 (length inner) p2 i2 new_mod (acc ++ [partition]) _ N HL2); [lia | lia | exact Hsf | exact Hsh].
+  Qed.
+End LoopTotal.
